@@ -168,7 +168,7 @@ func replay(path string) {
 		fmt.Printf("replay of grid case %+v: %d oracle failures\n", *f.Replay.Grid, len(vs))
 		run.Finish(ev.Coverage{"states": 1, "transitions": 1, "replayed": path}, nil)
 	}
-	for _, c := range configs(true) {
+	for _, c := range append(configs(true), ufConfigs()...) {
 		if c.Name != f.Replay.Config {
 			continue
 		}
@@ -232,17 +232,33 @@ func main() {
 		g = runGrid(run.Thorough(), samples)
 		fmt.Fprintf(os.Stderr, "c08: grid cases=%d steps=%d\n", g.Cases, g.Steps)
 	}
+	var uf ufStats
+	if only == "" || only == "undoflags" {
+		t0 := time.Now()
+		uf = runUndoFlags(run.Thorough(), samples)
+		if uf.Stopped {
+			run.Incomplete("part undoflags cut by the time budget")
+		}
+		per["undoflags"] = map[string]any{"histories": uf.Histories, "cases": uf.Cases, "states": uf.States, "real_ops": uf.RealOps, "distinct_outcomes": uf.Outcomes,
+			"undo_steps_that_removed_a_key_or_flags": uf.Undos, "rewrites_of_an_undone_key": uf.Rewrites, "nontrivial_states": uf.NonTrivial, "histories_per_shape": uf.perShape}
+		bounds["undoflags"] = uf.bounds
+		fmt.Fprintf(os.Stderr, "c08: undoflags stems=%d items=%d flag-lists=%d(%d single,%d pairs) cases=%d histories=%d states=%d outcomes=%d undos=%d rewrites-after-undo=%d violations=%d wall=%.1fs\n",
+			uf.Stems, uf.Writes, uf.FlagLists, uf.flagListsSingle, uf.flagsPairs, uf.Cases, uf.Histories, uf.States, uf.Outcomes, uf.Undos, uf.Rewrites, uf.Violations, time.Since(t0).Seconds())
+	}
 	noteEmptyUpperBound()
 	pprof.StopCPUProfile()
 
 	run.Finish(ev.Coverage{
-		"states":                        tot.States + g.Steps,
-		"transitions":                   tot.RealOps + g.RealOps,
-		"traces_validated_against_impl": tot.Transitions + g.Cases,
-		"evaluations":                   tot.Transitions + g.Steps,
-		"distinct_nontrivial":           tot.NonTrivial + g.Cases,
-		"distinct_outcomes":             tot.Outcomes,
-		"histories_executed":            tot.Transitions,
+		"states":                        tot.States + g.Steps + uf.States,
+		"transitions":                   tot.RealOps + g.RealOps + uf.RealOps,
+		"traces_validated_against_impl": tot.Transitions + g.Cases + uf.Histories,
+		"evaluations":                   tot.Transitions + g.Steps + uf.Histories,
+		"distinct_nontrivial":           tot.NonTrivial + g.Cases + uf.NonTrivial,
+		"distinct_outcomes":             tot.Outcomes + uf.Outcomes,
+		"histories_executed":            tot.Transitions + uf.Histories,
+		"undoflags_cases":               uf.Cases,
+		"undoflags_histories":           uf.Histories,
+		"undoflags_rewrites_after_undo": uf.Rewrites,
 		"grid_cases":                    g.Cases,
 		"grid_steps":                    g.Steps,
 		"per_config":                    per,
@@ -251,6 +267,11 @@ func main() {
 			"stage and checkpoint marks, dirty, limits); every history is executed on fresh ART and RBT buffers (replay + 1 op) and the full observation set is compared after its last op; " +
 			"states = distinct canonical states + grid steps, transitions = operations executed on the real buffers (replay included), evaluations = full observation-set comparisons; " +
 			"non-trivial state = some key with != 1 version (overwritten, undone or flags-only) or something written above an open stage / live checkpoint; " +
+			"part undoflags (key flags across undo): [outer level] base(target key absent / value / tombstone / flags-only persistent / flags-only non-persistent) x " +
+			"open(none, S, SS, C, SC, CS; S=Staging C=Checkpoint) x write(UpdateFlags | SetWithFlags | DeleteWithFlags with a flag-op list: empty, each of the 22 kv.FlagsOp, pairs " +
+			"[quick: persistent x non-persistent and same-flag pairs in both orders; thorough: all ordered pairs, two writes in the scope]) x every ending (Cleanup/Release per level, RevertToCheckpoint) x " +
+			"re-write of the key (Set, Delete, UpdateFlags(), UpdateFlags(set persistent), UpdateFlags(del non-persistent), SetWithFlags; directly and inside a fresh level); every prefix from the write on is one " +
+			"history executed on fresh buffers with the full observation set incl. the committer's view; its states = distinct (model state + ghosts) digests, non-trivial = holds an undone key that nobody has re-written yet, or reached by re-writing one; " +
 			"fan-out grid: n siblings under one prefix for n in {3,4,5,15,16,17,47,48,49,255,256} x 3 orders x prefixes x in-place leaf x 3 ways down, observed after each step",
 		"samples": samples.List(),
 		"bounds":  bounds,
